@@ -449,7 +449,7 @@ Definition set_stream (s : Z) (f : bytes) : bytes :=
 Inductive parse_err :=
 | PTooShort | PBadVersion | PBadLength | PBadFlags | PNoCompression | PDecompress | PBadOpcode
 | PTrailing | PBadConsistency | PBadSerialConsistency | PNegativeLength | PBadValueLength
-| PBadQueryFlags | PNamedValues | PBadBatchType | PBadStatementKind | PBadBatchFlags | PBadEvent.
+| PBadQueryFlags | PNonCanonicalFlags | PNamedValues | PBadBatchType | PBadStatementKind | PBadBatchFlags | PBadEvent.
 
 Definition reader (A : Type) : Type := bytes -> result parse_err (A * bytes).
 Definition rret {A} (a : A) : reader A := fun b => Ok (a, b).
@@ -521,19 +521,27 @@ Definition p_opt {A} (b : bool) (r : reader A) : reader (option A) :=
      [<serial_consistency>][<timestamp>]
    flags: 0x01 values, 0x02 skip_metadata, 0x04 page_size, 0x08 with_paging_state,
           0x10 with_serial_consistency, 0x20 with_default_timestamp, 0x40 with_names_for_values *)
+(* The flag byte must say exactly which optional parts are present ("flags matching the options
+   used"): a values flag followed by n = 0, or a paging-state flag followed by a null [bytes],
+   would denote the same parameters as the flag being clear.  The protocol text does not forbid
+   these encodings, the property does; this parser, being the property's oracle, rejects them. *)
+Definition p_values_nonempty : reader (list cell) :=
+  vals <- p_values ;; match vals with [] => rfail PNonCanonicalFlags | _ :: _ => rret vals end.
+Definition p_bytes_nonnull : reader bytes :=
+  o <- p_bytes ;; match o with Some b => rret b | None => rfail PNonCanonicalFlags end.
+
 Definition p_qparams : reader qparams :=
   c <- p_consistency ;;
   fl <- p_byte ;;
   if 128 <=? fl then rfail PBadQueryFlags
   else if N.testbit fl 6 then rfail PNamedValues
   else
-    vals <- (if N.testbit fl 0 then p_values else rret []) ;;
+    vals <- (if N.testbit fl 0 then p_values_nonempty else rret []) ;;
     ps <- p_opt (N.testbit fl 2) p_int ;;
-    pg <- p_opt (N.testbit fl 3) p_bytes ;;
+    pg <- p_opt (N.testbit fl 3) p_bytes_nonnull ;;
     sc <- p_opt (N.testbit fl 4) p_serial ;;
     ts <- p_opt (N.testbit fl 5) p_long ;;
-    rret (mkQP c sc ts ps (match pg with Some (Some b) => Some b | _ => None end)
-               (N.testbit fl 1) vals).
+    rret (mkQP c sc ts ps pg (N.testbit fl 1) vals).
 
 Definition bytes_eqb (a b : bytes) : bool := if list_eq_dec N.eq_dec a b then true else false.
 
@@ -693,8 +701,10 @@ Definition body_too_long (r : request) : bool :=
    empty value lists, no serial consistency / timestamp, and what make returns for it as far as
    sizes go: Ok body-size, or Err body-size = BodyTooLong (Request_proofs.uniform_batch). *)
 Definition batch_body_len (n t : N) : N := 1 + 2 + n * (1 + 4 + t + 2) + 2 + 1.
-Definition uniform_batch_outcome (n t : N) : result N N :=
-  let b := batch_body_len n t in if b <? 4294967296 then Ok b else Err b.
+(* what make does with a payload of [len] bytes, sizes only: Ok len = a frame of 9 + len bytes
+   whose length field is len; Err len = BodyTooLong(len)  (Request_proofs.make_sizes) *)
+Definition size_outcome (len : N) : result N N := if len <? 4294967296 then Ok len else Err len.
+Definition uniform_batch_outcome (n t : N) : result N N := size_outcome (batch_body_len n t).
 
 (* For EXECUTE the parser must be told whether the metadata-id extension is in use. *)
 Definition mid_matches (mid : bool) (r : request) : Prop :=
@@ -702,7 +712,8 @@ Definition mid_matches (mid : bool) (r : request) : Prop :=
 
 (* The property as an executable predicate on an observed frame (used by the tie's search):
    the independent parser reads the frame back to exactly the request that was asked for, with
-   version 4, the request's opcode, length = body size, flags = compression/tracing, stream 0. *)
+   version 4, the request's opcode, length = body size, flags = compression/tracing, stream s
+   (0 as made, the argument of set_stream afterwards). *)
 Definition bytes_eq_dec : forall a b : bytes, {a = b} + {a <> b} := list_eq_dec N.eq_dec.
 Definition opt_eq_dec {A} (d : forall a b : A, {a = b} + {a <> b})
   : forall a b : option A, {a = b} + {a <> b}.
@@ -739,13 +750,13 @@ Defined.
 Definition uses_mid (r : request) : bool :=
   match r with Execute _ m _ => is_some m | _ => false end.
 
-Definition frame_says (cd : codec) (c : option comp_alg) (tracing : bool) (r : request) (f : bytes) : bool :=
+Definition frame_says (cd : codec) (c : option comp_alg) (tracing : bool) (s : Z) (r : request) (f : bytes) : bool :=
   match parse_frame cd c (uses_mid r) f with
   | Ok (h, r') =>
       (if req_eq_dec r' r then true else false)
       && (h_version h =? 4) && (h_opcode h =? opcode r)
       && (h_length h + 9 =? blen f)
       && (h_flags h =? frame_flags (is_some c) tracing)
-      && (h_stream h =? 0)%Z
+      && (h_stream h =? s)%Z
   | Err _ => false
   end.
